@@ -135,7 +135,8 @@ def run_property(prop, tier, seed):
         if res.get("machinery"):
             agg["machinery"].append((res.get("cid"), res["machinery"]))
         for f in res.get("fail", []):
-            agg["failures"].append((res.get("case"), f))
+            own = f.pop("case", None)
+            agg["failures"].append((own if own is not None else res.get("case"), f))
         if res.get("sample") is not None and len(agg["samples"]) < 6:
             agg["samples"].append(res["sample"])
 
@@ -175,24 +176,28 @@ def run_property(prop, tier, seed):
         else:
             violations.append((case, f))
 
-    # --- confirm violations in isolation (at most a handful per (family, kind) cluster)
+    # --- confirm violations in isolation (a few per (family, kind) cluster)
     confirmed = []
     clusters = collections.OrderedDict()
     for case, f in violations:
-        clusters.setdefault((f.get("family"), f.get("kind"), tuple(sorted(f.get("tags", [])))[:6]), []).append((case, f))
+        clusters.setdefault((f.get("family"), f.get("kind")), []).append((case, f))
+    budget = 24
     for key, items in clusters.items():
-        case, f = items[0]
-        ok = True
-        if hasattr(mod, "evaluate") and case is not None and not f.get("no_confirm"):
-            try:
-                ok = confirm(mod, case, f)
-            except Exception as e:  # noqa
-                log("confirmation crashed: %r" % e)
-                ok = False
-        if not ok:
-            log("MACHINERY ERROR: failure not reproducible in isolation: %s %s" % (key, json.dumps(case, default=str)[:500]))
-            write_evidence(mod, prop, tier, seed, agg, t0, [], {}, machinery=True)
-            return 2
+        for case, f in items[:2]:
+            if budget <= 0:
+                break
+            budget -= 1
+            ok = True
+            if hasattr(mod, "evaluate") and case is not None and not f.get("no_confirm"):
+                try:
+                    ok = confirm(mod, case, f)
+                except Exception as e:  # noqa
+                    log("confirmation crashed: %r" % e)
+                    ok = False
+            if not ok:
+                log("MACHINERY ERROR: failure not reproducible in isolation: %s %s" % (key, json.dumps(case, default=str)[:500]))
+                write_evidence(mod, prop, tier, seed, agg, t0, [], {}, machinery=True)
+                return 2
         confirmed.append((key, items))
 
     for eid, info in explained.items():
@@ -201,12 +206,12 @@ def run_property(prop, tier, seed):
         print("KNOWN-FINDING: property=%s %s %s (%d cases, e.g. %s)" % (prop, eid, info["entry"]["what"], info["n"], path))
     nviol = 0
     for key, items in confirmed:
-        case, f = items[0]
-        path = write_replay(prop, case, f)
         nviol += len(items)
-        print("VIOLATION property=%s replay=%s" % (prop, path))
-        print("  family=%s kind=%s cases=%d tags=%s" % (f.get("family"), f.get("kind"), len(items), f.get("tags")))
-        print("  detail: %s" % str(f.get("detail"))[:600])
+        for case, f in items[:3]:
+            path = write_replay(prop, case, f)
+            print("VIOLATION property=%s replay=%s" % (prop, path))
+            print("  family=%s kind=%s cases_in_cluster=%d tags=%s" % (f.get("family"), f.get("kind"), len(items), f.get("tags")))
+            print("  detail: %s" % str(f.get("detail"))[:600])
     write_evidence(mod, prop, tier, seed, agg, t0, confirmed, explained)
     log("%s %s: evaluations=%d nontrivial=%d failures=%d explained=%d violations=%d wall=%.1fs" % (
         prop, tier, agg["evaluations"], len(agg["nontrivial_keys"]), len(agg["failures"]),
